@@ -1,7 +1,7 @@
 // Reproducer for the C20 findings: strict mode ACCEPTS these inputs, permissive
 // mode accepts them too, but returns a DIFFERENT result, because strict mode
 // silently swallows the parse error of a nested element (KeyUsage /
-// BasicConstraints extension value, CSR attribute) whose only defect is a
+// BasicConstraints extension value, RSASSA-PSS parameters, CSR attribute) whose only defect is a
 // mode-dependent DER nicety (non-minimal length octets), while permissive mode
 // parses the nested element.
 //
@@ -32,20 +32,26 @@ const certKeyUsage = "3081f93081aca003020102020107300506032b6570301c311a30180603
 // attribute carries its OID as 06 81 09 ... (length 9 in long form).
 const csrAttribute = "3081f43081a70201003024310c300a060355040a13034f7267311430120603550403130b6373722e6578616d706c65302a300506032b6570032100aee600321461561a92fb6528e3470ab176253dd16d9416717c48fda0f7abda4ba050304e0681092a864886f70d01090e3140303e303c0603551d1104353033820b6373722e6578616d706c65820f7777772e6373722e6578616d706c65810d61406373722e6578616d706c658704c0000207300506032b6570034100752f05b175f92ba1d33feaaeb8f3283cb5249722bb17e2572e8f945f52c086999ce2964db93edf238428080429c2006076e042bfb7c0ffc821232279252b0e09"
 
+// Model certificate (Ed25519 key) whose signatureAlgorithm fields are RSASSA-PSS
+// with SHA-256 parameters; inside the TBSCertificate copy the [0] hashAlgorithm
+// wrapper is a0 81 0f ... (length 15 in long form) instead of a0 0f ...
+const certPSSParams = "308201543081cba00302010202020102304206092a864886f70d01010a3035a0810f300d06096086480165030402010500a11c301a06092a864886f70d010108300d06096086480165030402010500a20302012030173115301306035504030c0c7867656e207375626a656374301e170d3236303131343132303030305a170d3236303131363132303030305a30173115301306035504030c0c7867656e207375626a656374302a300506032b657003210011794f28e64aaaa3b6c75431d6f928d736b1c808a57e8eabf08c48607597f6f7304106092a864886f70d01010a3034a00f300d06096086480165030402010500a11c301a06092a864886f70d010108300d06096086480165030402010500a2030201200341004bf2d05c1e55e019971b4b39ba7a21474d3b90b6c9d21a04ff006541e7f57e1d1d8a2cf2ef8c5a598b19427cb0b09d24217c4772ff38db836aad987e37136b0f"
+
 func main() {
 	permissive := flag.Bool("permissive", false, "set asn1.AllowPermissiveParsing before parsing")
 	flag.Parse()
 	asn1.AllowPermissiveParsing = *permissive
 	fmt.Printf("AllowPermissiveParsing=%v\n", asn1.AllowPermissiveParsing)
 
-	for _, tc := range []struct{ name, h string }{{"BasicConstraints value with long-form length", certBasicConstraints}, {"KeyUsage value with long-form length", certKeyUsage}} {
+	for _, tc := range []struct{ name, h string }{{"BasicConstraints value with long-form length", certBasicConstraints}, {"KeyUsage value with long-form length", certKeyUsage},
+		{"RSASSA-PSS parameters with long-form length", certPSSParams}} {
 		der, _ := hex.DecodeString(tc.h)
 		c, err := x509.ParseCertificate(der)
 		if err != nil {
 			fmt.Printf("%-48s ParseCertificate: error %v\n", tc.name, err)
 			continue
 		}
-		fmt.Printf("%-48s ParseCertificate: ok  BasicConstraintsValid=%v IsCA=%v MaxPathLen=%d KeyUsage=%d\n", tc.name, c.BasicConstraintsValid, c.IsCA, c.MaxPathLen, c.KeyUsage)
+		fmt.Printf("%-48s ParseCertificate: ok  BasicConstraintsValid=%v IsCA=%v MaxPathLen=%d KeyUsage=%d SignatureAlgorithm=%v\n", tc.name, c.BasicConstraintsValid, c.IsCA, c.MaxPathLen, c.KeyUsage, c.SignatureAlgorithm)
 	}
 	der, _ := hex.DecodeString(csrAttribute)
 	r, err := x509.ParseCertificateRequest(der)
